@@ -116,7 +116,7 @@ theorem C27_normal_latest (ts0 : Nat) (full : Nat → Bool) (ops mem : List Ent)
     (hts : ts0 + ops.length ≤ ts) (e : Ent) (hl : lastOn ops k = some e) :
     ∃ v, ts0 ≤ v ∧ newestLE (batchRun false ts0 full ops mem) k ts = some { e with ver := v } := by
   have hside := C27_normal_side ts0 full ops h0
-  rw [C27_last_wins_normal ts0 full ops mem k ts hside, newestLE_applyWrites, newestLE_append]
+  rw [C27_last_wins_all_splits false ts0 full ops mem k ts, newestLE_applyWrites, newestLE_append]
   have hsegs : ∀ seg ∈ segments full 0 [] ops, ∀ x ∈ seg, x.ver = 0 := by
     intro seg hs x hx
     rcases segments_mem full 0 [] ops seg hs x hx with h | h
@@ -154,7 +154,7 @@ theorem C27_normal_untouched (ts0 : Nat) (full : Nat → Bool) (ops mem : List E
     (h0 : ∀ e ∈ ops, e.ver = 0) (k : Bytes) (ts : Nat) (hl : ∀ e ∈ ops, e.key ≠ k) :
     newestLE (batchRun false ts0 full ops mem) k ts = newestLE mem k ts := by
   have hside := C27_normal_side ts0 full ops h0
-  rw [C27_last_wins_normal ts0 full ops mem k ts hside, newestLE_applyWrites, newestLE_append]
+  rw [C27_last_wins_all_splits false ts0 full ops mem k ts, newestLE_applyWrites, newestLE_append]
   have hsegs : ∀ seg ∈ segments full 0 [] ops, ∀ x ∈ seg, x.ver = 0 := by
     intro seg hs x hx
     rcases segments_mem full 0 [] ops seg hs x hx with h | h
